@@ -428,6 +428,10 @@ def base_programs():
         {"op": "distribute", "src": T, "col": 0, "dst": P, "dw": L([(0, 1), (1, 1)]), "vol": 2, "label": "d"},
         {"op": "aspirate", "lw": P, "wells": L([(0, 0)]), "vols": S(2), "label": None},
         {"op": "dispense", "lw": P, "wells": L([(0, 1)]), "vols": S(2), "label": None},
+        # every well of the destination, in plate order and as the 2-D table itself: still needs device specific numbering
+        {"op": "distribute", "src": T, "col": 0, "dst": P, "dw": L([(r, c) for c in range(4) for r in range(3)]), "vol": 1, "label": "whole plate"},
+        {"op": "distribute", "src": T, "col": 0, "dst": P, "dw": M([[(r, c) for c in range(4)] for r in range(3)]), "vol": 1, "label": "whole plate, table"},
+        {"op": "transfer", "src": T, "sw": L([(r, 0) for r in range(3)]), "dst": P, "dw": L([(r, 0) for r in range(3)]), "vols": S(1), "label": "whole column", "wash": 1},
     ]
     return [h]
 
@@ -618,6 +622,17 @@ def device_programs():
         {"op": "distribute", "src": T, "col": 1, "dst": T, "dw": L([(0, 0), (1, 0), (2, 0), (3, 0), (1, 2)]), "vol": 2, "label": "two columns"},
         {"op": "distribute", "src": T, "col": 2, "dst": T, "dw": L([(0, 0), (1, 0), (2, 0)]), "vol": 9, "label": "underflows: 14 - 27"},
         {"op": "transfer", "src": T, "sw": L([(0, 0), (3, 0)]), "dst": T, "dw": L([(2, 1), (1, 1)]), "vols": L([3, 2]), "label": "t", "wash": 1},
+    ]
+    progs.append(h)
+    # every (virtual) well of the destination at once, listed in plate order and as the 2-D table
+    lws = base_labware() + [gen.mk_trough("sink", 4, 2, 0, 60, [0, 5])]
+    h = _hdr("devices/all-wells-of-the-destination", "evo", lws, wlmax=30, flags={"comp": True, "norm": False})
+    h["ops"] = [
+        {"op": "distribute", "src": T, "col": 0, "dst": P, "dw": L([(r, c) for c in range(4) for r in range(3)]), "vol": 1, "label": "whole plate"},
+        {"op": "distribute", "src": T, "col": 1, "dst": P, "dw": M([[(r, c) for c in range(4)] for r in range(3)]), "vol": 1, "label": "whole plate, table"},
+        {"op": "distribute", "src": T, "col": 0, "dst": 3, "dw": L([(r, c) for c in range(2) for r in range(4)]), "vol": 1, "label": "every virtual well of a trough"},
+        {"op": "distribute", "src": T, "col": 0, "dst": 3, "dw": L([(r, 1) for r in range(4)]), "vol": 2, "label": "every virtual well of one column"},
+        {"op": "transfer", "src": T, "sw": L([(r, 0) for r in range(4)]), "dst": 3, "dw": L([(r, 0) for r in range(4)]), "vols": S(1), "label": "column to column", "wash": 1},
     ]
     progs.append(h)
     # the wash scheme given as a numpy integer (taken from an array of protocol parameters), and DiTi mode with every scheme
